@@ -6,6 +6,7 @@ import (
 	"errors"
 	"fmt"
 	"os"
+	"sort"
 	"strings"
 	"testing"
 	"time"
@@ -45,7 +46,7 @@ func gen(t *rapid.T) Case {
 	if os.Getenv("VERIF_NOFAULTS") != "" {
 		c.FaultsC, c.FaultsS = nil, nil
 	}
-	if c.Meta.Version == 12 && c.Meta.Dual == "" && rapid.IntRange(0, 3).Draw(t, "resume") == 0 {
+	if c.Meta.Version == 12 && rapid.IntRange(0, 3).Draw(t, "resume") == 0 {
 		c.Resume = true
 		c.C.Store, c.S.Store = "cs", "ss"
 	}
@@ -272,16 +273,47 @@ func judge(c *Case, p *scen.Pair, env *scen.Env, r *pbt.R) {
 	// peer certificates
 	resumed := c.Resume && isAbbreviated(p)
 	if c.S.Cert != "" && !resumed {
-		if want := scen.GetCreds().ChainDER(c.S.Cert); !eqChain(cs.PeerCertificates, want) {
-			r.Failf("C01|peer-cert-client-view", "client sees %d certs, server presented %d", len(cs.PeerCertificates), len(want))
+		if want := scen.ExpectedServerChain(&c.S, c.C.ServerName); !eqChain(cs.PeerCertificates, want) {
+			r.Failf("C01|peer-cert-client-view", "client sees %d certs, server presented %d (server certificates %v+%q, requested name %q)", len(cs.PeerCertificates), len(want), c.S.CertsBefore, c.S.Cert, c.C.ServerName)
 
 			return
 		}
+		if len(c.S.CertsBefore) > 0 {
+			r.Class("server-with-several-certificates")
+		}
+	}
+	if c.C.CertCallback && len(env.AcceptableCAs) > 0 {
+		// the client's view of the server's CertificateRequest: the names of exactly the CAs the server accepts
+		var want []string
+		if c.S.ClientCAs {
+			want = append(want, string(scen.GetCreds().CA1.Cert.RawSubject))
+			if c.S.ClientCAsMulti {
+				want = append(want, string(scen.GetCreds().CA3.Cert.RawSubject))
+			}
+		}
+		sort.Strings(want)
+		for _, seen := range env.AcceptableCAs {
+			var got []string
+			for _, ca := range seen {
+				got = append(got, string(ca))
+			}
+			sort.Strings(got)
+			if strings.Join(got, "|") != strings.Join(want, "|") {
+				r.Failf("C01|certificate-request-view", "client callback saw %d acceptable CA names %q, the server accepts %d: %q", len(got), got, len(want), want)
+
+				return
+			}
+		}
+		r.Class("client-certificate-callback")
 	}
 	if !resumed && c.Meta.Family != "psk" && c.Meta.Family != "epsk" {
 		var want [][]byte
 		if c.S.ClientAuth != 0 && c.C.Cert != "" {
 			want = scen.GetCreds().ChainDER(c.C.Cert)
+			if c.C.CertCallback && !c.S.ClientCAs {
+				// the callback offers a certificate of another CA first; a server that names no CAs accepts any
+				want = scen.GetCreds().ChainDER("client-untrusted")
+			}
 		}
 		if !eqChain(ss.PeerCertificates, want) {
 			r.Failf("C01|peer-cert-server-view", "server sees %d certs, client presented %d (cauth=%d cert=%q)", len(ss.PeerCertificates), len(want), c.S.ClientAuth, c.C.Cert)
